@@ -93,17 +93,19 @@ class DsCompute(Contract):
     def setup(self, itp, case):
         me = self
 
-        def inv(itp_, env, _):
+        def inv(itp_, env, kc):
             cx = itp_.cx
-            i = term_of(env.lookup("i"))
+            # the loop state the contract speaks about: the radius array r, the angle grid and the number of
+            # directions done so far (the counter of a for-loop, the local i of the original while-loop)
+            i = kc if kc is not None else term_of(env.lookup("i"))
             r = env.lookup("r")
             angles = env.lookup("angles")
-            L = term_of(env.lookup("length_t"))
+            L = angles.shape[0]
             me.r_arr, me.angles = r, angles
             rg, ag = r.getter(), angles.getter()
             return [("counter", T.land(T.ge(i, 0), T.le(i, L))),
                     ("radii_done", cx.forall(["int"], lambda k: T.implies(T.land(T.ge(k, 0), T.lt(k, i)), T.eq(rg((k,)), me.radius(cx, ag((k,)))))))]
-        itp.loop_specs[(DS + "._compute", 0)] = LoopSpec(inv, decreases=lambda itp_, env: T.sub(term_of(env.lookup("length_t")), term_of(env.lookup("i"))))
+        itp.loop_specs[(DS + "._compute", 0)] = LoopSpec(inv, decreases=lambda itp_, env: T.sub(env.lookup("angles").shape[0], term_of(env.lookup("i"))))
 
     def radius(self, cx, ang):
         """quantile of x cos(a) + y sin(a) at 1 - alpha, in the canonical form of the numpy model"""
@@ -234,9 +236,17 @@ class AndOrBase(Contract):
             mask = SArr.fresh(x.shape, lambda idx: T.land(T.gt(xg(idx), a), T.gt(yg(idx), b)), "bool")
         return term_of(itp.lib.count_mask(itp, mask))
 
+    def columns(self, itp, env):
+        """the two variables of the sample in use, taken from the object's sample (the code's own x / y locals only as a fallback)"""
+        smp = self.obj.fields.get("sample")
+        if isinstance(smp, SArr) and smp.ndim == 2:
+            full = ("slice", None, None, None)
+            return itp.lib.array_getitem(itp, smp, (full, 0)), itp.lib.array_getitem(itp, smp, (full, 1))
+        return env.lookup("x"), env.lookup("y")
+
     def define_pe(self, itp, env, a, b):
         """definition instance: PE(a, b) = (number of sample points exceeding (a, b)) / n"""
-        x, y = env.lookup("x"), env.lookup("y")
+        x, y = self.columns(itp, env)
         c = self.exceed_count(itp, x, y, a, b)
         n = x.shape[0]
         itp.cx.fact(T.eq(PE(T.zr(a), T.zr(b)), T.div(c, n)), "spec:PE(a,b) = fraction of the sample exceeding (a,b) (strict; AND: both variables, OR: at least one)")
@@ -296,7 +306,7 @@ class AndOrBase(Contract):
         def o_inv(itp_, env, kc):
             cx = itp_.cx
             cxs, cys = env.lookup("coords_x"), env.lookup("coords_y")
-            me.env_x, me.env_y = env.lookup("x"), env.lookup("y")
+            me.env_x, me.env_y = me.columns(itp_, env)
             if me.is_or:
                 from vf.engine.values import SList
                 if not isinstance(cxs, SList):
@@ -469,11 +479,13 @@ class OrCompute(AndOrBase):
             cx = itp_.cx
             from vf.engine.values import SList
             cxs, cys = env.lookup("coords_x"), env.lookup("coords_y")
-            me.env_x, me.env_y = env.lookup("x"), env.lookup("y")
+            me.env_x, me.env_y = me.columns(itp_, env)
             if not isinstance(cxs, SList):
                 return [("lists_empty", len(cxs) == 0 and len(cys) == 0)]
             r0 = cx.sym("r0", "int")
-            xm, ym = term_of(env.lookup("x_max_consider")), term_of(env.lookup("y_max_consider"))
+            # 1.1 x the sample maximum per variable, stated over the sample (not over the code's temporaries)
+            xm = T.mul(Fraction(11, 10), term_of(itp_.lib.table["numpy.max"].fn(itp_, [me.env_x], {})))
+            ym = T.mul(Fraction(11, 10), term_of(itp_.lib.table["numpy.max"].fn(itp_, [me.env_y], {})))
             a, b = me.val(cxs.elem(r0)), me.val(cys.elem(r0))
             return [("same_length", T.eq(cxs.length, cys.length)),
                     ("point_r0_good", T.implies(T.land(T.ge(r0, 0), T.lt(r0, cxs.length)),
